@@ -129,12 +129,14 @@ PROPS["C11"] = A("TestSim_C11", AUTH_RULE +
     "An exact model of (handshake version, user, level) per connection is compared after every request with the server's session (white-box) and with the reply class: nothing but {hi} is served before the "
     "handshake, nothing privileged before login, failed/expired/suspended/second logins leave the identity unchanged, obo only for root, delivered messages carry the session's user as author and no client-chosen "
     "sender header, the version cannot change. Non-trivial = a connection that sent at least one request in a wrong state and later a privileged one that was served; distinct = distinct (program hash, schedule hash).",
-    quick=(8, 150, 300), thorough=(16, 3000, 3000), probes=["fault.clock_jump", "fault.crash"], assumptions=COMMON_ASSUME)
+    quick=(8, 150, 300), thorough=(16, 3000, 3000), probes=["fault.clock_jump", "fault.crash", "fault.store_err", "c11.login_needs_validation"], assumptions=COMMON_ASSUME,
+    configs=[{}, {"require_cred": True}])
 PROPS["C12"] = A("TestSim_C12", AUTH_RULE +
     "A secret authenticates iff the model says it is valid at that simulated instant (issued token not expired and account live; correct password; reset code not used, not expired, fewer wrong guesses than the cap) "
     "and then yields exactly the issued user and level; every other secret is refused; a second account whose login differs only in case is refused. "
     "Non-trivial = at least one accepted secret and at least three differently-invalid secrets judged on handshaken connections; distinct = distinct (program hash, schedule hash).",
     quick=(8, 150, 300), thorough=(16, 3000, 3000), probes=["fault.clock_jump", "fault.crash", "c12.reset_code_accepted", "c12.reset_code_wrong_guess"],
+    configs=[{}, {"require_cred": True}],
     assumptions=COMMON_ASSUME + ["the bit-level mutation space and the API-key byte space are sampled through the workload, not enumerated (pure-function clauses; DESIGN.md section 6)",
                                  "tokens issued under another key/serial are forged by the harness with the documented layout; backward clock steps are not simulated"])
 
